@@ -116,6 +116,12 @@ def retarget_equals_rebuild(ctx, cls, d, opts):
         bad_d = S.PointCloud(ctx.reals('bd', (src.n_points, d + 1)))
         ctx.check_true('reject/other-n_points', ctx.raises(ValueError, a.set_target, bad_n))
         ctx.check_true('reject/other-n_dims', ctx.raises(ValueError, a.set_target, bad_d))
+        # both differ while the number of coordinates is the same (e.g. 3 points in 2-D vs 2 points in 3-D)
+        total = src.n_points * d
+        for d2 in (1, 2, 3, 4, 6):
+            if d2 != d and total % d2 == 0:
+                bad_nd = S.PointCloud(ctx.reals('bnd%d' % d2, (total // d2, d2)))
+                ctx.check_true('reject/other-n_points-and-n_dims[%dx%d]' % (total // d2, d2), ctx.raises(ValueError, a.set_target, bad_nd))
         compare_states(ctx, 'reject/state-unchanged', state_of(a), st)
         ctx.check_true('reject/target-kept', a.target is t1)
 
